@@ -22,7 +22,10 @@ TABLE = [('0', '0', '0.1'), ('-0.35', '5.95', '0.1'), ('100.05', '-47.95', '0.05
          ('164.5', '-47.95', '0.1'), ('-180', '-90', '2'), ('179', '89', '0.5'), ('0.001', '0.002', '0.001'),
          ('5.95', '-0.35', '0.2'), ('-47.95', '100.05', '0.25'), ('12', '41', '1'), ('-0.3', '0.3', '0.3'),
          # anchors whose float sum with the spacing rounds one ulp above the decimal lattice (0.2 + 0.1, 36.2 + 0.1 ...)
-         ('0.2', '36.2', '0.1'), ('-63.8', '0.2', '0.1')]
+         ('0.2', '36.2', '0.1'), ('-63.8', '0.2', '0.1'),
+         # anchors that are small compared with the spacing (the rounding of the spacing is then not covered by any anchor-sized
+         # allowance; the quotient (p - a0) / h of a boundary point may sit a fraction of an ulp below a whole number)
+         ('0.05', '-0.05', '0.2'), ('-0.1', '0.1', '0.4'), ('0.025', '0.01', '0.1'), ('0', '0', '0.07'), ('0.015', '-0.025', '0.1')]
 
 
 def lattice_edges(x0, dh, n):
@@ -261,8 +264,13 @@ def run(chk, replay=None):
 
     # 3. random larger lattices with holes, shipped regions
     n_rand = 6 if quick else 40
-    for t in range(n_rand):
+    # (the last five table entries - anchors small compared with the spacing - always get a long lattice each: what goes wrong
+    # with them goes wrong dozens of cells away from the anchor)
+    small_anchor = list(range(len(TABLE) - 5, len(TABLE)))
+    for t in list(range(n_rand)) + [-(k + 1) for k in range(len(small_anchor))]:
         nx, ny = rng.randint(2, 40), rng.randint(2, 40)
+        if t < 0:
+            nx, ny = 48 + rng.randint(0, 12), 30 + rng.randint(0, 12)
         cells = [(i, j) for j in range(ny) for i in range(nx) if rng.random() > 0.25]
         # keep the bounding box tight
         for i in (0, nx - 1):
@@ -275,7 +283,7 @@ def run(chk, replay=None):
         rng.shuffle(cells)
         flags = [1 if rng.random() > 0.1 else 0 for _ in cells] if t % 2 else []
         case = {'nx': nx, 'ny': ny, 'polys': [list(c) for c in cells], 'flags': flags}
-        x0, y0, dh = TABLE[t % len(TABLE)]
+        x0, y0, dh = TABLE[t % len(TABLE)] if t >= 0 else TABLE[small_anchor[-t - 1]]
         xe, ye = lattice_edges(x0, dh, nx), lattice_edges(y0, dh, ny)
         dhf = float(Fraction(dh))
         cmap = cmap_from_inputs(cells, flags, nx, ny)
